@@ -68,8 +68,6 @@ class Gen:
         self.r = r; self.info = info; self.stalls = stalls
         self.types_sized = [t for t in range(1, 128) if len(info[t]) > 1 and info[t][0] >= 2 and info[t][1] > 0]
         self.types_zero = [t for t in range(1, 128) if info[t][0] == 1]
-        allans = {a for row in info if row and row[0] >= 2 for a in row[2:row[0] + 1]}
-        self.spont = [t for t in (0xA3, 0xA7) if t not in allans] or [0xA3]      # uplink types that answer no request
     def history(self):
         r = self.r
         nn = r.range(1, 4)
@@ -107,31 +105,8 @@ class Gen:
                 ev.append(("up", n, useq[n], rty, [r.below(256) for _ in range(r.range(1, 3))]))
                 useq[n] = 1 if useq[n] == 255 else useq[n] + 1
             elif k < 88:
-                now += r.choice([1, 1, 2, 2, 3, 5, 60])
-                # the buffer is flushed before every clock change: the expiry pass that follows `time` releases node by
-                # node, each release ending with its own flush, so its packets do not depend on the order of the nodes
-                if ev[-1][0] != "flush": ev.append(("flush",))
-                if r.chance(7, 10):
-                    ev.append(("time", now))          # clock change immediately followed by the expiry pass
-                else:
-                    # the heartbeat thread runs the pass up to 0.1 s after the second changed: meanwhile senders and the receiver
-                    # see requests of expiry age (the receiver drops them itself, without retrying the held queue). Only
-                    # messages that answer no request arrive in between, so the property's accounting is unambiguous.
-                    ev.append(("clock", now))
-                    for _ in range(r.range(1, 4)):
-                        g = r.choice(nodes)
-                        lifted = [e[1] for e in ev if e[0] == "up" and e[3] == 0x8E and e[4][-1] != 0]
-                        if self.stalls and lifted and r.chance(1, 4):
-                            ev.append(("up", r.choice(lifted), 0, 0x8E, [0]))      # a stall is lifted inside the window
-                        elif r.chance(1, 2):
-                            ty = r.choice([0x16, 0x17, 0x19, 0x20, 0x0c, 0x05, 0x38]) if r.chance(1, 2) else r.choice(self.types_sized)
-                            ev.append(("send", g, ty, [r.below(256) for _ in range(r.below(3))]))
-                            if self.info[ty][1] > 0: outstanding[g].append(ty)
-                        else:
-                            ev.append(("up", g, useq[g], r.choice(self.spont), [r.below(256) for _ in range(4)]))
-                            useq[g] = 1 if useq[g] == 255 else useq[g] + 1
-                        ev.append(("flush",))
-                    ev.append(("expire",))
+                now += r.choice([1, 1, 2, 2, 3, 5])
+                ev.append(("time", now))
                 if r.chance(1, 3):
                     for q in outstanding.values(): q.clear()
             elif k < 92:
@@ -140,7 +115,6 @@ class Gen:
                 tgt = r.choice(nodes)
                 if r.chance(1, 2) and len(tgt) > 0: tgt = tgt[:r.range(1, len(tgt))]
                 if r.chance(1, 8): tgt = ()
-                if ev[-1][0] != "flush": ev.append(("flush",))     # see the clock change above: releases node by node
                 ev.append(("up", tgt, 0, 0x8E, [r.choice([1, 1, 0, 0, 0, 2])]))
             else:
                 ev.append(("up", n, 0, 0xA1, [r.below(256)]))
@@ -149,9 +123,7 @@ class Gen:
             # clear every stall at the end in random order so that held traffic must resume
             st = list({e[1] for e in ev if e[0] == "up" and e[3] == 0x8E})
             while st:
-                t = st.pop(r.below(len(st)))
-                if ev[-1][0] != "flush": ev.append(("flush",))
-                ev.append(("up", t, 0, 0x8E, [0])); ev.append(("flush",))
+                t = st.pop(r.below(len(st))); ev.append(("up", t, 0, 0x8E, [0])); ev.append(("flush",))
         return ev
 
 def script_of(cid, ev):
@@ -163,8 +135,6 @@ def script_of(cid, ev):
         elif e[0] == "up":
             L.append("rx " + hexs(frame(upmsg(e[1], e[2], e[3], e[4]))))
         elif e[0] == "time": L.append("time %d" % e[1])
-        elif e[0] == "clock": L.append("clock %d" % e[1])
-        elif e[0] == "expire": L.append("expire")
         elif e[0] == "flush": L.append("flush")
         elif e[0] == "seqon": L.append("seqon %d" % e[1])
         elif e[0] == "reset": L.append("reset_nodes")
@@ -205,34 +175,6 @@ def trace_of(ev, lines):
     res.append((("flush",), per.get("end", [])))
     return res
 
-def chunk_node(line):
-    """destination of the first message of a wire line ('w <hex>'), or None"""
-    try:
-        pk = decode_wire([unhex(line[2:])])
-        return msg_fields(pk[0][0])[0] if pk and pk[0] else None
-    except Exception:
-        return None
-
-def canon_lines(ev, lines):
-    """The expiry pass after a clock change (`time n`) visits the nodes in the order of the library's GHashTable, the model
-    in the order of its association list. The order shows in two places: in the order of the releases of the pass itself, and -
-    because the pass registers blocked nodes with their stalled ancestor in that order - in the order in which a later
-    all-clear notice releases several waiting nodes. No property constrains the order across nodes. For the comparison
-    impl == model the wire lines between a `time` / `expire` command or a stall notice and its mark are therefore stably sorted by
-    destination node (the order within a node is kept; the generators flush before `time` and before stall notices, so every
-    line there is the release of one node). The oracles read the raw implementation output."""
-    if lines is None: return None
-    tmarks = {"mark %d" % i for i, e in enumerate(ev) if e[0] in ("time", "expire") or (e[0] == "up" and e[3] == 0x8E)}
-    out = []; seg = []
-    for l in lines:
-        if l.startswith("w "): seg.append(l)
-        else:
-            if l in tmarks and len(seg) > 1:
-                keyed = [(chunk_node(x), j, x) for j, x in enumerate(seg)]
-                if all(k[0] is not None for k in keyed): seg = [x for _, _, x in sorted(keyed)]
-            out += seg; seg = []; out.append(l)
-    return out + seg
-
 # ------------------------------------------------------------------ oracles on implementation traces
 def answers(info, ty):
     return info[ty][2:info[ty][0] + 1] if ty < len(info) and info[ty] and info[ty][0] >= 2 else []
@@ -251,19 +193,17 @@ def oracle_flow(info, ev, impl_lines, domain):
     sseq = {}
     wire = {}        # node -> list of messages observed
     spec_out = {}    # node -> list of [ty, t]
-    noexp = {}       # node -> the same accounting without the 2 s expiry (answers only): names the kind of a stranding
+    noexp = {}       # node -> same accounting without the 2 s expiry (answers only)
     stalled = set()
     seqon = True
     now = 0
+    has_time_jump = sum(1 for e in ev if e[0] == "time") > 1
     def live(n):
         return [x for x in spec_out.get(n, []) if now - x[1] < 2]
-    settled = True   # the expiry pass has run since the last clock change (`time` = clock change + pass)
     for i, (e, chunks) in enumerate(tr):
-        if e[0] == "time": now = e[1]; settled = True
-        elif e[0] == "clock": now = e[1]; settled = False
-        elif e[0] == "expire": settled = True
+        if e[0] == "time": now = e[1]
         elif e[0] == "seqon": seqon = bool(e[1])
-        elif e[0] == "reset": sseq = {}; spec_out = {}; noexp = {}; stalled = set(); submitted = {}; wire = {}; settled = True
+        elif e[0] == "reset": sseq = {}; spec_out = {}; noexp = {}; stalled = set(); submitted = {}; wire = {}
         elif e[0] == "send":
             n = tuple(e[1]); s = 0
             if seqon:
@@ -306,11 +246,9 @@ def oracle_flow(info, ev, impl_lines, domain):
                         key = "stall.root" if blockers == [()] else "stall.subtree"
                         viol.append((key, "message %s to node %s transmitted while %s is stalled" % (hexs(m), a, blockers), i))
         if viol and viol[-1][0] in ("fifo-once", "wire-undecodable"): break
-        # stranded check at event boundaries (fully flushed histories only). The `time` command of the harness moves the clock
-        # and runs the library's expiry pass, so the boundary after it lies after the pass: requests that reached the expiry
-        # age no longer count, and a held message that fits must be on the wire (C03 never-stranded clause, C04 resume).
-        # Between a bare clock change (`clock n`) and the pass (`expire`) - the heartbeat thread's latency - no judgement.
-        if all_flushed and settled and domain in ("C03", "C04") and e[0] in ("flush", "time", "expire"):
+        # stranded check at event boundaries (fully flushed histories only)
+        if all_flushed and domain in ("C03", "C04") and e[0] in ("flush", "time"):
+            expiry_domain = domain == "C04" and has_time_jump          # C03's known finding lives here; judged against the model below
             for n, subs in submitted.items():
                 sent = len(wire.get(n, []))
                 if sent < len(subs):
@@ -318,9 +256,12 @@ def oracle_flow(info, ev, impl_lines, domain):
                     head = subs[sent]; hty = msg_fields(head)[2]
                     used = sum(rsize(info, x[0]) for x in live(n))
                     if used + rsize(info, hty) <= 48:
-                        used_noexp = sum(rsize(info, x[0]) for x in noexp.get(n, []))
-                        if domain == "C03": key = "strand.after-expiry" if used_noexp + rsize(info, hty) > 48 else "strand.other"
-                        else: key = "resume.stranded"
+                        raw = spec_out.get(n, [])
+                        if domain == "C03":
+                            used_noexp = sum(rsize(info, x[0]) for x in noexp.get(n, []))
+                            key = "strand.lazy-expiry" if used_noexp + rsize(info, hty) > 48 else "strand.other"
+                        else:
+                            key = "resume.stranded-with-expiry" if expiry_domain else "resume.stranded"
                         viol.append((key, "held message %s to node %s fits the budget (%d+%d<=48) and no ancestor is stalled, but was not transmitted by event %d" % (hexs(head), n, used, rsize(info, hty), i), i))
                         return viol
     if domain == "C05":
@@ -373,30 +314,33 @@ def run_flow_check(ck, prop_file, domain, make_cases, corr_name, known_classifie
         if il:
             nw = sum(1 for l in il if l.startswith("w "))
             if any(e[0] == "up" and e[3] == 0x8E for e in ev): tags.add("stall")
-            if any(e[0] in ("time", "clock") for e in ev[1:]): tags.add("clock-jump")
-            if any(e[0] == "clock" for e in ev): tags.add("late-timer")
+            if any(e[0] == "time" for e in ev[1:]): tags.add("clock-jump")
             # deferral: a send event not followed by wire output before the next mark in a flushed history
             tr = trace_of(ev, il)
             for (e, ch), nxt in zip(tr, tr[1:]):
                 if e[0] == "send" and nxt[0][0] == "flush" and not ch and not nxt[1]: tags.add("deferred")
                 if e[0] == "up" and (ch or (nxt[0][0] == "flush" and nxt[1])): tags.add("released-by-uplink")
-                if e[0] in ("time", "expire") and ch: tags.add("released-by-timer")
         for t in tags: dist[t] = dist.get(t, 0) + 1
-        if "deferred" in tags or "released-by-uplink" in tags or "released-by-timer" in tags or "stall" in tags: nontrivial += 1
+        if "deferred" in tags or "released-by-uplink" in tags or "stall" in tags: nontrivial += 1
         if len(samples) < 2 and "released-by-uplink" in tags: samples.append({"events": ev_json(ev), "impl": il})
         if il is None:
             ck.violation("driver-crash", {"property": ck.pid, "events": ev_json(ev), "rc": rc, "stderr": err[-1500:]})
             continue
-        ilc = canon_lines(ev, il); mlc = canon_lines(ev, ml)
         vs = oracle_seq(ev, il) if domain == "C05" else oracle_flow(info, ev, il, domain)
         if domain != "C05":
             vs = [v for v in vs if True]
         for key, reason, at in vs[:1]:
-            same_as_model = (ilc == mlc)
+            same_as_model = (il == ml)
+            # the known finding strand.lazy-expiry is the stranding that the faithful model of the unchanged code exhibits as well; a
+            # stranding in the expiry domain on a history where implementation and model disagree is something else
+            if key == "strand.lazy-expiry" and not same_as_model: key = "strand.with-expiry-not-in-model"
+            if key == "resume.stranded-with-expiry":
+                if same_as_model: continue                      # C03's finding, not a stall matter
+                key = "resume.stranded-not-in-model"
             orc_fail += 1
             ck.violation(key, {"property": ck.pid, "events": ev_json(ev), "script": script_of("replay", ev), "impl": il, "model": ml,
                                "reason": reason, "at_event": at, "implementation_equals_faithful_model": same_as_model})
-        if ilc != mlc:
+        if il != ml:
             dis += 1
             if dis <= 3:
                 ck.broken.append({"kind": "correspondence", "name": corr_name, "events": ev_json(ev), "impl": il, "model": ml})
